@@ -115,6 +115,33 @@ def prepare(d, seed, names):
     P = os.path.join(d, "P")
     os.makedirs(P)
     files["P"] = pw.materialize(poly_world(names, seed + 2), P)
+    # polyploid input in which only one haplotype's reads link variants 2 and 3, so that the order of the other two
+    # haplotypes across that link is open; only the SECOND sample carries a pre-phasing (one set over all variants,
+    # the two open haplotypes swapped behind the link), which decides the link under --use-prephasing.  The other
+    # samples have no phased block.
+    P2 = os.path.join(d, "P2")
+    os.makedirs(P2)
+    k2 = 4
+    w2 = {"seed": seed + 5, "chroms": [{"name": "chr1", "length": 60 + 40 * k2 + 60, "variants": [{"pos": 60 + 40 * i, "kind": "SNV", "len": 1} for i in range(k2)]}], "samples": list(names), "haps": {}, "reads": []}
+    for sn in names:
+        w2["haps"][sn] = {"chr1": [[0, 1, 0] for _ in range(k2)]}
+        for h in range(3):
+            w2["reads"].append({"sample": sn, "chrom": "chr1", "hap": h, "segs": [[0, 1, 6, 6]], "n": 2})
+            w2["reads"].append({"sample": sn, "chrom": "chr1", "hap": h, "segs": [[2, 3, 6, 6]], "n": 2})
+        w2["reads"].append({"sample": sn, "chrom": "chr1", "hap": 2, "segs": [[1, 2, 6, 6]], "n": 2})
+    p2 = pw.materialize(w2, P2)
+    parsed = synth.parse_vcf(p2["vcf"])
+    lines = list(parsed["header"]) + [synth.FORMAT_LINES["PS"], "\t".join(["#CHROM", "POS", "ID", "REF", "ALT", "QUAL", "FILTER", "INFO", "FORMAT"] + parsed["samples"])]
+    for ri, rec in enumerate(parsed["records"]):
+        t = rec["line"].split("\t")
+        t[8] = "GT:PS"
+        e = [0, 1, 0] if ri < 2 else [1, 0, 0]
+        for si, sn in enumerate(parsed["samples"]):
+            t[9 + si] = ("|".join(map(str, e)) + ":61") if si == 1 else t[9 + si] + ":."
+        lines.append("\t".join(t))
+    with open(p2["vcf"], "w") as f:
+        f.write("\n".join(lines) + "\n")
+    files["P2"] = p2
     # haplotag inputs and outputs for the downstream commands
     from whatshap.cli.haplotag import run_haplotag
 
@@ -224,6 +251,7 @@ def scenarios(files, names):
         {"id": "genotype-ped", "cmd": "genotype", "names": files["F_names"], "args": {"inputs": [f["bam"]], "vcf": f["vcf"], "fasta": f["fasta"], "ped": files["F_ped"]}},
         {"id": "genotype-use-ped-samples", "cmd": "genotype", "names": ["dad", "mom", "kid"], "args": {"inputs": [f["bam"]], "vcf": f["vcf"], "fasta": f["fasta"], "ped": files["F_ped"], "kw": {"use_ped_samples": True}}},
         {"id": "polyphase", "cmd": "polyphase", "names": names, "args": {"inputs": [p["bam"]], "vcf": p["vcf"], "fasta": p["fasta"], "ploidy": 3}},
+        {"id": "polyphase-prephasing-one-sample", "cmd": "polyphase", "names": names, "args": {"inputs": [files["P2"]["bam"]], "vcf": files["P2"]["vcf"], "fasta": files["P2"]["fasta"], "ploidy": 3, "kw": {"use_prephasing": True, "block_cut_sensitivity": 1}}},
         {"id": "haplotag", "cmd": "haplotag", "names": names, "args": {"vcf": files["A_phased_gz"], "bam": a["bam"], "fasta": a["fasta"]}},
         {"id": "haplotag-regions", "cmd": "haplotag", "names": names, "chroms": chroms, "args": {"vcf": files["A_phased_gz"], "bam": a["bam"], "fasta": a["fasta"], "kw": {"regions": ["chr2", "chr1:1-150", "chr1:150-400"]}}},
         {"id": "haplotag-irg-two-samples", "cmd": "haplotag", "names": names[:2], "args": {"vcf": files["A_phased_gz"], "bam": a["bam"], "fasta": a["fasta"], "kw": {"ignore_read_groups": True, "given_samples": list(names[:2])}}},
